@@ -49,31 +49,11 @@ theorem ExecX.toT {t : Bool} {K : PCtx} {e' : AExpr} {σ σ' : X.St} {w : Word} 
 theorem ExecT.toX {t : Bool} {K : PCtx} {e' : AExpr} {σ σ' : X.St} {w : Word} (h : ExecT t K e' w σ σ') :
     ExecX t K e' σ (.ok (.int w) σ') := h
 
-/-- The code of the generator `gen`, started in a machine state that represents `σ`, terminates
-    the program with exit code `cd` in the state `σ'`. -/
-def ExitsM (K : PCtx) (gen : M Code) (σ : X.St) (cd : Word) (σ' : X.St) : Prop :=
-  ∀ (gs : GS) (code : Code) (gs' : GS) (i : Nat) (a b : Word) (mem : Mem),
-    gen gs = .ok (code, gs') → At K.env.ds i (K.low code) → Rep K σ mem →
-    gs'.size ≤ K.S → K.nlocals ≤ gs.offset → ConstsIn K gs' →
-    ∃ c, Steps K.env (cfg i a b mem) σ.io c σ'.io ∧ Exit K.env c σ'.io cd
-
 theorem ExecX.toExits {t : Bool} {K : PCtx} {e' : AExpr} {σ σ' : X.St} {cd : Word} (h : ExecX t K e' σ (.exit cd σ')) :
     ExitsM K (genExpr K.ctx e' .A) σ cd σ' := h
 
 theorem ExitsM.toX {t : Bool} {K : PCtx} {e' : AExpr} {σ σ' : X.St} {cd : Word}
     (h : ExitsM K (genExpr K.ctx e' .A) σ cd σ') : ExecX t K e' σ (.exit cd σ') := h
-
-theorem ExecT.same_left {t : Bool} {K : PCtx} {e' : AExpr} {v : Word} {σ0 σ σ' : X.St} (h : ExecT t K e' v σ σ')
-    (hs : SameVars σ0 σ) : ExecT t K e' v σ0 σ' := by
-  intro gs code gs' i a b mem hg hat hr hsz hnl hci
-  obtain ⟨b', mem', st, rep, frm⟩ := h gs code gs' i a b mem hg hat (hr.same hs) hsz hnl hci
-  exact ⟨b', mem', by rw [← hs.2.2.2.1]; exact st, rep, frm⟩
-
-theorem ExecT.same_right {t : Bool} {K : PCtx} {e' : AExpr} {v : Word} {σ σ' σ2 : X.St} (h : ExecT t K e' v σ σ')
-    (hs : SameVars σ' σ2) : ExecT t K e' v σ σ2 := by
-  intro gs code gs' i a b mem hg hat hr hsz hnl hci
-  obtain ⟨b', mem', st, rep, frm⟩ := h gs code gs' i a b mem hg hat hr hsz hnl hci
-  exact ⟨b', mem', by rw [hs.2.2.2.1]; exact st, rep.same hs, frm⟩
 
 theorem ExitsM.same_left {K : PCtx} {gen : M Code} {cd : Word} {σ0 σ σ' : X.St} (h : ExitsM K gen σ cd σ')
     (hs : SameVars σ0 σ) : ExitsM K gen σ0 cd σ' := by
@@ -297,14 +277,6 @@ theorem constL_opnd (K : PCtx) (wf : K.WF) (e : X.Expr) (hc : isConstL K.ρ e = 
 
 /-! ### The class -/
 
-/-- Expressions with one call (`callOk` decides which calls) under monadic operators and under
-    arithmetic / relational operators whose other operand is a constant. -/
-def ipE (ρ : String → Option Word) (callOk : X.Expr → Bool) : X.Expr → Bool
-  | .un _ e => ipE ρ callOk e
-  | .bin op l r => isArith op && ((isConstL ρ l && ipE ρ callOk r) || (ipE ρ callOk l && isConstL ρ r))
-  | .call g args => callOk (.call g args)
-  | _ => false
-
 theorem ip_const_none (ρ : String → Option Word) (callOk : X.Expr → Bool) :
     (e : X.Expr) → ipE ρ callOk e = true → (annotate ρ e).const = none
   | .un _ x, h => by
@@ -346,6 +318,33 @@ theorem ip_opt_facts (ρ : String → Option Word) (callOk : X.Expr → Bool) (e
   | str _ => simp [ipE] at h
   | sub _ _ => simp [ipE] at h
   | syscall _ _ => simp [ipE] at h
+
+theorem ip_containsCall (ρ : String → Option Word) (callOk : X.Expr → Bool) :
+    (e : X.Expr) → ipE ρ callOk e = true → containsCall (optExpr (annotate ρ e)) = true
+  | .call g args, _ => by rw [annot_call]; rfl
+  | .un op x, h => by
+    simp only [ipE] at h
+    have hcn := ip_const_none ρ callOk x h
+    have ih := ip_containsCall ρ callOk x h
+    simp only [annotate, hcn, Option.map_none]
+    rw [optExpr_un]
+    cases op <;> simp [containsCall, ih]
+  | .bin op l r, h => by
+    have hcn := ip_const_none ρ callOk (.bin op l r) h
+    simp only [ipE, Bool.and_eq_true, Bool.or_eq_true] at h
+    simp only [annotate, AExpr.const_bin] at hcn ⊢
+    rw [optExpr_bin, hcn]
+    simp only [Option.isSome_none, Bool.false_eq_true, if_false]
+    rw [containsCall_rewriteBin]
+    rcases h.2 with ⟨_, hr⟩ | ⟨hl, _⟩
+    · rw [ip_containsCall ρ callOk r hr]; simp
+    · rw [ip_containsCall ρ callOk l hl]; simp
+  | .num _, h => by simp [ipE] at h
+  | .bool _, h => by simp [ipE] at h
+  | .name _, h => by simp [ipE] at h
+  | .str _, h => by simp [ipE] at h
+  | .sub _ _, h => by simp [ipE] at h
+  | .syscall _ _, h => by simp [ipE] at h
 
 theorem ExecX.undef {t : Bool} {K : PCtx} {e' : AExpr} {σ : X.St} (w : String) : ExecX t K e' σ (.undef w) :=
   fun _ _ _ _ _ _ _ _ _ _ _ _ _ => trivial
@@ -542,6 +541,36 @@ theorem expr_ip_correct : (e : X.Expr) → (fuel : Nat) → fuel ≤ F → (σ :
   | .str _, _, _, _, h => by simp [ipE] at h
   | .sub _ _, _, _, _, h => by simp [ipE] at h
   | .syscall _ _, _, _, _, h => by simp [ipE] at h
+
+/-- A condition with one call of any callee. -/
+theorem condOK_ip (c : X.Expr) (hip : ipE G.rho (callE5 G.pk G.pnames G.xc.impure G.rho) c = true) :
+    CondOK (KOf G pi sp dep hi) F c := by
+  have hX := expr_ip_correct ok hpi sp dep hi hlo hspv hstack F hcs c F (Nat.le_refl _)
+  have hcc := ip_containsCall G.rho _ c hip
+  refine ⟨?_, ?_, ?_, ?_⟩
+  · intro st mem w s _ hev
+    have hev' : X.eval F G.xc c st = .ok (.int w) s := hev
+    have := hX st hip
+    rw [hev'] at this
+    exact this.toT
+  · intro st mem cd s _ hev
+    have hev' : X.eval F G.xc c st = .exit cd s := hev
+    have := hX st hip
+    rw [hev'] at this
+    exact this.toExits
+  · intro hn
+    have : containsCall (optExpr (annotate G.rho c)) = false := hn
+    rw [hcc] at this; simp at this
+  · intro hn
+    have : containsCall (optExpr (annotate G.rho c)) = false := hn
+    rw [hcc] at this; simp at this
+
+theorem condOK_5 (c : X.Expr) (h : cond5 G.pk G.pnames G.xc.impure G.rho c = true) : CondOK (KOf G pi sp dep hi) F c := by
+  simp only [cond5, Bool.or_eq_true, Bool.and_eq_true] at h
+  rcases h with (hp | ⟨hpk, hpp⟩) | hip
+  · exact condOK_pure _ (ok.wfs pi hpi sp dep hi hlo hspv).toWF F c hp
+  · exact condOK_pp ok (ok.pure_ok hpk) hpi sp dep hi hlo hspv hstack F hcs c hpp
+  · exact condOK_ip ok hpi sp dep hi hlo hspv hstack F hcs c hip
 
 end
 
